@@ -93,8 +93,8 @@ class HeapMaintenance(Harness):
     bounds = {
         "quick": "K <= 3 resting orders on one side (all limit/market mixes) with one disturbing op (cancel any "
                  "order / clock tick with symbolic ttl in [1,3] / counter order + round), two ops for K = 2 and "
-                 "for K = 3 limit orders, K = 4 limit orders with one cancel or tick; then a sweeping counter "
-                 "order (limit with symbolic price, or market)",
+                 "for K = 3 limit orders, K = 4 limit orders with one cancel or tick; K = 5 with three market orders in "
+                 "every arrival pattern (unit volumes); then a sweeping counter order (limit with symbolic price, or market)",
         "thorough": "K <= 4 with up to 2 ops, all kind mixes for K <= 3, plus K = 5,6,7 limit orders of volume 1 "
                     "and pairwise distinct prices with one op (cancel of any order, or a one-lot counter order + round; for K = 7 the cancels on the sell "
                     "side and the partial round on the buy side) before a limit sweep for K lots at a solver-chosen price",
@@ -125,6 +125,12 @@ class HeapMaintenance(Harness):
                                 continue
                             out.append({"is_buy": is_buy, "K": K, "kinds": "".join(kinds), "ops": ops,
                                         "deep": False, "sweep_market": sm})
+            # five resting orders of which three are market orders (they rest while the other side is empty), every
+            # arrival pattern, unit volumes; then the sweep
+            for pos in itertools.combinations(range(5), 3):
+                for sv in (2, 4):
+                    out.append({"is_buy": is_buy, "K": 5, "kinds": "".join("1" if i in pos else "0" for i in range(5)),
+                                "ops": [], "deep": True, "sweep_market": False, "sweep_volume": sv})
             if tier == "thorough":
                 for K in (5, 6, 7):
                     ops = [["C", i] for i in range(K)] + ["R"]
@@ -219,7 +225,8 @@ class HeapMaintenance(Harness):
                 # deep books: pairwise distinct prices (price ties are covered by the books of <= 4 orders; with ties
                 # the 7-order space is ~10x larger)
                 for r0 in recs:
-                    g.assume(price != r0["price"])
+                    if price is not None and r0["price"] is not None:
+                        g.assume(price != r0["price"])
             log = m._add_order(o)
             m._execution()
             orders.append(o)
@@ -260,8 +267,8 @@ class HeapMaintenance(Harness):
                 self._check_best(g, m, recs, is_buy)
         if "C08" in self.props:
             return
-        self._round(g, m, recs, is_buy, "x", market=case.get("sweep_market", False),
-                    volume=(K if case["ops"] != ["R"] else 2 * K - 1) if case["deep"] else None)
+        vol = (K if case["ops"] != ["R"] else 2 * K - 1) if case["deep"] else None
+        self._round(g, m, recs, is_buy, "x", market=case.get("sweep_market", False), volume=case.get("sweep_volume", vol))
 
 
 class DeepHeap(Harness):
